@@ -12,6 +12,7 @@ from pyvc.dsl import *  # noqa: F401,F403
 class_aliases = {
     "Node": "hugr.hugr.node_port.Node", "Hugr": "hugr.hugr.base.Hugr", "Op": "hugr.ops.Op", "Input": "hugr.ops.Input", "Output": "hugr.ops.Output",
     "DfParentOp": "hugr.ops.DfParentOp", "Type": "hugr.tys.Type", "OutPort": "hugr.hugr.node_port.OutPort", "DfBase": "hugr.build.dfg.DfBase",
+    "DataflowBlock": "hugr.ops.DataflowBlock", "ExitBlock": "hugr.ops.ExitBlock",
 }
 extra_fields = {
     "hugr.hugr.base.Hugr._tn_op": "Seq[Op]",
@@ -283,6 +284,7 @@ class add_op:
 class new_nested:
     types = {"parent_op": "DfParentOp", "hugr": "Hugr", "parent": "Opt[Node]"}
     returns = "DfBase"
+    fresh_result = True          # the builder returned is a new object (obligation here, allocation at call sites)
 
     def requires(cls, parent_op, hugr, parent):
         return aligned(hugr)
@@ -387,3 +389,177 @@ class add_tail_loop:
                 "P_with_its_input_and_output_nodes": io_pair(result, h, n0 + 1, op, result.parent_node),
                 "P_just_inputs_then_rest_go_to_the_loop_in_order": w == len(old(self._tw_node)) + 1 and len(self._tw_wires) == w
                 and nth(self._tw_node, w - 1).idx == result.parent_node.idx and eq(nth(self._tw_wires, w - 1), concat(just_inputs, rest))}
+
+
+@contract("hugr.build.cfg.Cfg._init_impl", props=["C01"])
+class cfg_init_impl:
+    types = {"hugr": "Hugr", "root": "Node", "input_types": "Seq[Type]"}
+
+    def requires(self, hugr, root, input_types):
+        return aligned(hugr)
+
+    def modifies(self, hugr, root, input_types):
+        return [self.hugr, self.parent_node, self._entry_block, self.exit, hugr._tn_op, hugr._tn_parent, hugr._tn_outs, hugr._tn_node, hugr._nodes, hugr._free_nodes]
+
+    def raises(self, hugr, root, input_types):
+        return {}
+
+    def ensures(self, hugr, root, input_types, result):
+        n0 = len(old(hugr._tn_op))
+        entry = nth(hugr._tn_op, n0)
+        return {"P_four_nodes": len(hugr._tn_op) == n0 + 4 and aligned(hugr) and same_obj(self.hugr, hugr) and self.parent_node.idx == root.idx,
+                # the entry block is the first child created under the CFG node, with the CFG's input row ...
+                "P_entry_block_first": cls_is(entry, DataflowBlock) and eq(as_cls(entry, DataflowBlock).inputs, input_types)
+                and notNone(nth(hugr._tn_parent, n0)) and the(nth(hugr._tn_parent, n0)).idx == root.idx
+                and self._entry_block.parent_node.idx == nth(hugr._tn_node, n0).idx,
+                # ... followed by its own Input and Output ...
+                "P_entry_block_has_input_and_output": io_pair(self._entry_block, hugr, n0 + 1, entry, self._entry_block.parent_node),
+                # ... and the exit block is created next, under the CFG node
+                "P_exit_block_second": cls_is(nth(hugr._tn_op, n0 + 3), ExitBlock) and notNone(nth(hugr._tn_parent, n0 + 3)) and the(nth(hugr._tn_parent, n0 + 3)).idx == root.idx
+                and eq(self.exit, nth(hugr._tn_node, n0 + 3))}
+
+
+# ---- Conditional._init_impl: one Case per variant, in order, each with the variant's row followed by the other inputs ----
+@spec
+def case_row(op, k):
+    """ghost: the input row of case k of a Conditional operation (Conditional.nth_inputs: variant k, then the other inputs - C06)"""
+    return ghost("case_inputs_of", "Seq[Type]", op, k)
+
+
+@contract("hugr.ops.Conditional.nth_inputs", props=[])
+class conditional_nth_inputs:
+    """TRUSTED here (proved in C06): names its result."""
+    trusted = True
+    types = {"n": "int"}
+    returns = "Seq[Type]"
+
+    def modifies(self, n):
+        return []
+
+    def raises(self, n):
+        return {}
+
+    def ensures(self, n, result):
+        return {"A_named": eq(result, case_row(self, n))}
+
+
+@contract("hugr.build.cond_loop.Conditional.parent_op", props=[])
+class conditional_parent_op:
+    """TRUSTED accessor: the operation object of the conditional's node (assumed stable)."""
+    trusted = True
+    returns = "hugr.ops.Conditional"
+
+    def modifies(self):
+        return []
+
+    def raises(self):
+        return {}
+
+    def ensures(self, result):
+        return {"named": same_obj(result, ghost("conditional_op_of", "hugr.ops.Conditional", self.hugr, self.parent_node.idx))}
+
+
+@contract("hugr.build.cond_loop.Case.new_nested", props=[])
+class case_new_nested:
+    """DfBase.new_nested (proved above) as inherited by Case: restated with the result typed as a Case builder."""
+    trusted = True
+    fresh_result = True
+    types = {"parent_op": "DfParentOp", "hugr": "Hugr", "parent": "Opt[Node]"}
+    returns = "hugr.build.cond_loop.Case"
+
+    def requires(cls, parent_op, hugr, parent):
+        return aligned(hugr)
+
+    def modifies(cls, parent_op, hugr, parent):
+        return [hugr._tn_op, hugr._tn_parent, hugr._tn_outs, hugr._tn_node, hugr._nodes, hugr._free_nodes]
+
+    def raises(cls, parent_op, hugr, parent):
+        return {}
+
+    def ensures(cls, parent_op, hugr, parent, result):
+        n0 = len(old(hugr._tn_op))
+        return {"three_nodes": len(hugr._tn_op) == n0 + 3 and aligned(hugr),
+                "container_first": same_obj(nth(hugr._tn_op, n0), parent_op) and result.parent_node.idx == nth(hugr._tn_node, n0).idx and same_obj(result.hugr, hugr),
+                "under_parent": notNone(nth(hugr._tn_parent, n0)) and the(nth(hugr._tn_parent, n0)).idx == ite(isNone(parent), hugr.root, the(parent)).idx,
+                "io": io_pair(result, hugr, n0 + 1, parent_op, result.parent_node),
+                "earlier_kept": forall(int, lambda j: implies(0 <= j and j < n0, same_obj(nth(hugr._tn_op, j), nth(old(hugr._tn_op), j))
+                                                              and eq(nth(hugr._tn_node, j), nth(old(hugr._tn_node), j))
+                                                              and eq(nth(hugr._tn_parent, j), nth(old(hugr._tn_parent), j))
+                                                              and eq(nth(hugr._tn_outs, j), nth(old(hugr._tn_outs), j)))),
+                }
+
+
+@contract("hugr.build.cfg.Block.new_nested", props=[])
+class block_new_nested:
+    """DfBase.new_nested (proved above) as inherited by Block: restated with the result typed as a Block builder."""
+    trusted = True
+    fresh_result = True
+    types = {"parent_op": "DfParentOp", "hugr": "Hugr", "parent": "Opt[Node]"}
+    returns = "hugr.build.cfg.Block"
+
+    def requires(cls, parent_op, hugr, parent):
+        return aligned(hugr)
+
+    def modifies(cls, parent_op, hugr, parent):
+        return [hugr._tn_op, hugr._tn_parent, hugr._tn_outs, hugr._tn_node, hugr._nodes, hugr._free_nodes]
+
+    def raises(cls, parent_op, hugr, parent):
+        return {}
+
+    def ensures(cls, parent_op, hugr, parent, result):
+        n0 = len(old(hugr._tn_op))
+        return {"three_nodes": len(hugr._tn_op) == n0 + 3 and aligned(hugr),
+                "container_first": same_obj(nth(hugr._tn_op, n0), parent_op) and result.parent_node.idx == nth(hugr._tn_node, n0).idx and same_obj(result.hugr, hugr),
+                "under_parent": notNone(nth(hugr._tn_parent, n0)) and the(nth(hugr._tn_parent, n0)).idx == ite(isNone(parent), hugr.root, the(parent)).idx,
+                "io": io_pair(result, hugr, n0 + 1, parent_op, result.parent_node),
+                "earlier_kept": forall(int, lambda j: implies(0 <= j and j < n0, same_obj(nth(hugr._tn_op, j), nth(old(hugr._tn_op), j))
+                                                              and eq(nth(hugr._tn_node, j), nth(old(hugr._tn_node), j))
+                                                              and eq(nth(hugr._tn_parent, j), nth(old(hugr._tn_parent), j))
+                                                              and eq(nth(hugr._tn_outs, j), nth(old(hugr._tn_outs), j)))),
+                }
+
+
+@spec
+def case_at(self, hg, n0, j, cop, root):
+    """calls n0+3j .. n0+3j+2 of the trace create case j: a Case operation with the j-th case row under the conditional's node,
+    then its Input and Output; builder j of the table is the one for that node, is marked unbuilt and points back to this conditional"""
+    k = n0 + 3 * j
+    op = nth(hg._tn_op, k)
+    b = nth(self._case_builders, j)[0]
+    return (allocated(op) and cls_is(op, hugr.ops.Case) and eq(as_cls(op, hugr.ops.Case).inputs, case_row(cop, j))
+            and notNone(nth(hg._tn_parent, k)) and the(nth(hg._tn_parent, k)).idx == root.idx
+            and allocated(b) and b.parent_node.idx == nth(hg._tn_node, k).idx and not nth(self._case_builders, j)[1]
+            and notNone(b._parent_cond) and same_obj(the(b._parent_cond), self)
+            and cls_is(nth(hg._tn_op, k + 1), Input) and cls_is(nth(hg._tn_op, k + 2), Output)
+            and notNone(nth(hg._tn_parent, k + 1)) and the(nth(hg._tn_parent, k + 1)).idx == nth(hg._tn_node, k).idx
+            and notNone(nth(hg._tn_parent, k + 2)) and the(nth(hg._tn_parent, k + 2)).idx == nth(hg._tn_node, k).idx)
+
+
+@contract("hugr.build.cond_loop.Conditional._init_impl", props=["C01"])
+class conditional_init_impl:
+    types = {"hugr": "Hugr", "root": "Node", "n_cases": "int"}
+
+    def requires(self, hugr, root, n_cases):
+        return aligned(hugr) and n_cases >= 0
+
+    def modifies(self, hugr, root, n_cases):
+        # (the loop head forgets the listed graph fields by name, for every graph: they are named that way here too)
+        return [self.hugr, self.parent_node, self._case_builders, "hugr.hugr.base.Hugr._tn_op", "hugr.hugr.base.Hugr._tn_parent", "hugr.hugr.base.Hugr._tn_outs",
+                "hugr.hugr.base.Hugr._tn_node", "hugr.hugr.base.Hugr._nodes", "hugr.hugr.base.Hugr._free_nodes", "hugr.build.cond_loop.Case._parent_cond"]
+
+    def raises(self, hugr, root, n_cases):
+        return {}
+
+    def loop_1(self, hugr, root, n_cases, _i1):
+        n0 = len(old(hugr._tn_op))
+        cop = ghost("conditional_op_of", "hugr.ops.Conditional", hugr, root.idx)
+        return {"builder": same_obj(self.hugr, hugr) and self.parent_node.idx == root.idx,
+                "trace": len(hugr._tn_op) == n0 + 3 * _i1 and aligned(hugr),
+                "table": len(self._case_builders) == _i1,
+                "cases_so_far": forall(int, lambda j: implies(0 <= j and j < _i1, case_at(self, hugr, n0, j, cop, root)))}
+
+    def ensures(self, hugr, root, n_cases, result):
+        n0 = len(old(hugr._tn_op))
+        cop = ghost("conditional_op_of", "hugr.ops.Conditional", hugr, root.idx)
+        return {"P_three_nodes_per_case": len(hugr._tn_op) == n0 + 3 * n_cases and len(self._case_builders) == n_cases,
+                "P_case_j_is_the_j_th_child_with_its_row": forall(int, lambda j: implies(0 <= j and j < n_cases, case_at(self, hugr, n0, j, cop, root)))}
